@@ -497,3 +497,55 @@ Proof.
       * eexists. apply QRUnlock.
     + eexists. apply QSendA; [reflexivity|lia].
 Qed.
+
+(* ---------- entry points ---------- *)
+Lemma lockset_sound_from G P entries bodies c0 c :
+  well_locked_from G P entries = true -> inline_entries fuel0 P entries = Some bodies ->
+  idle c0 -> steps bodies c0 c -> ~ racy G c.
+Proof.
+  unfold well_locked_from. intros W E. rewrite E in W. apply lockset_sound_bodies. exact W.
+Qed.
+
+Lemma mutual_exclusion_from G P entries bodies c0 c :
+  well_locked_from G P entries = true -> inline_entries fuel0 P entries = Some bodies -> idle c0 -> steps bodies c0 c ->
+  forall i j m, i <> j -> In m (hx (c i)) -> ~ In m (hx (c j)) /\ ~ In m (hr (c j)).
+Proof.
+  unfold well_locked_from. intros W E Hi St. rewrite E in W. destruct (idle_inv G c0 Hi) as [A B].
+  destruct (steps_inv G bodies c0 c W A B St) as [_ B']. exact B'.
+Qed.
+
+(* ---------- recursive RLock ---------- *)
+(* a reader that takes the read lock again while holding it and a writer that asks for the lock in
+   between are stuck forever: the nested RLock waits for the pending writer, the writer for the reader *)
+Lemma recursive_rlock_deadlocks :
+  exists s, rrsteps true (mk_rrstate RP0 WP0) s /\ rrstuck true s /\ ~ rrfinished s /\
+            rr_r s = RP1 /\ rr_w s = WPpending.
+Proof.
+  exists (mk_rrstate RP1 WPpending). split; [|split; [|split; [|auto]]].
+  - eapply rrsteps_trans; [eapply rrsteps_trans; [apply rrsteps_refl|]|].
+    + apply (RRlock true RP0 WP0); [reflexivity|left; reflexivity].
+    + apply (RWpend true RP1).
+  - intros s' St. inversion St; subst; try discriminate.
+    + destruct H3; discriminate.
+  - intros [E _]. discriminate.
+Qed.
+
+(* without nesting (RLock; RUnlock; RLock; RUnlock) every state is final or can move *)
+Lemma sequential_rlock_progress s : rrfinished s \/ exists s', rrstep false s s'.
+Proof.
+  destruct s as [p w]. destruct w.
+  - right. eexists. apply RWpend.
+  - right. destruct p.
+    + eexists. apply RWenter. reflexivity.
+    + eexists. apply RRunlock; [reflexivity|discriminate].
+    + eexists. apply RWenter. reflexivity.
+    + eexists. apply RRunlock; [reflexivity|discriminate].
+    + eexists. apply RWenter. reflexivity.
+  - right. eexists. apply RWleave.
+  - destruct p.
+    + right. eexists. apply RRlock; [reflexivity|right; reflexivity].
+    + right. eexists. apply RRunlock; [reflexivity|discriminate].
+    + right. eexists. apply RRlock; [reflexivity|right; reflexivity].
+    + right. eexists. apply RRunlock; [reflexivity|discriminate].
+    + left. split; reflexivity.
+Qed.
